@@ -481,6 +481,54 @@ def ob_set_merge_variations(typ):
     return verify(body, replay=replay)
 
 
+@obligation("set/merge_all_results_every_name_exactly_once", params=[{"empty_self": e} for e in (False, True)],
+            desc="A.merge_all_results(B) where both sets hold the results the runner produces - a user result 'x' AND the "
+                 "'num_skipped_reps' counter (havocked SUM results): every name of B is merged into A exactly once (view(A[name]) == "
+                 "view(A[name]) + view(B[name]) for both names, update counts add), also when A is empty (everything of B is taken over); B unchanged")
+def ob_set_merge_every_name(empty_self):
+    def body(c, it):
+        import pyphysim.simulations.results as r
+        acc = False
+        A = it.call(r.SimulationResults, [])
+        B = it.call(r.SimulationResults, [])
+        ra, rb = {}, {}
+        names = ("x", "num_skipped_reps")
+        for nm in names:
+            if not empty_self:
+                ra[nm] = _havoc(c, it, _new(it, "SUM", acc, nm), "SUM", "A_" + nm, 1)
+                it.call(it.getattr(A, "add_result"), [ra[nm]])
+            rb[nm] = _havoc(c, it, _new(it, "SUM", acc, nm), "SUM", "B_" + nm, 1)
+            it.call(it.getattr(B, "add_result"), [rb[nm]])
+        sa = {k: _snap(v) for k, v in ra.items()}
+        sb = {k: _snap(v) for k, v in rb.items()}
+        it.call(it.getattr(A, "merge_all_results"), [B])
+        goals = []
+        for nm in names:
+            got = it.call(it.getattr(A, "__getitem__"), [nm])[-1]
+            want = sb[nm] if empty_self else _plus_view(sa[nm], sb[nm], "SUM", acc)
+            goals.append(Goal("%r merged exactly once" % nm, sym.SBool(_eq(_snap(got), want))))
+            goals.append(Goal("operand %r unchanged" % nm, sym.SBool(_eq(_snap(rb[nm]), sb[nm]))))
+        return goals
+
+    def replay(mv):
+        from pyphysim.simulations.results import Result, SimulationResults
+        try:
+            def mk(x, sk):
+                S = SimulationResults()
+                S.add_new_result("x", Result.SUMTYPE, x)
+                S.add_new_result("num_skipped_reps", Result.SUMTYPE, sk)
+                return S
+            A, B = (SimulationResults(), mk(5, 3)) if empty_self else (mk(2, 1), mk(5, 3))
+            A.merge_all_results(B)
+            got = {n: (A[n][-1].get_result(), A[n][-1].num_updates) for n in ("x", "num_skipped_reps")}
+            want = {"x": (5, 1), "num_skipped_reps": (3, 1)} if empty_self else {"x": (7, 2), "num_skipped_reps": (4, 2)}
+            return {"confirmed": got != want, "history": "A = {x: 2, num_skipped_reps: 1}%s, B = {x: 5, num_skipped_reps: 3}; A.merge_all_results(B)" % (" (empty)" if empty_self else ""),
+                    "(value, updates) per name": {k: list(v) for k, v in got.items()}, "expected": {k: list(v) for k, v in want.items()}}
+        except Exception as e:
+            return {"confirmed": False, "error": "replay crashed: %r" % (e,)}
+    return verify(body, replay=replay)
+
+
 @obligation("set/combine_overlapping_grids_symbolic_values", params=[{"typ": t, "la": la, "lb": lb} for t, la, lb in
                                                                     (("SUM", 2, 2), ("RATIO", 2, 1), ("CHOICE", 1, 2), ("SUM", 3, 2))]
             + [{"typ": "SUM", "la": 2, "lb": 2, "order": "any"}, {"typ": "RATIO", "la": 3, "lb": 1, "order": "any"}],
